@@ -244,6 +244,10 @@ class QueueProxy(object):
         if self.sched.controlled():
             self.sched.step('q.append')
         self.d.append(x)
+        # (the element is visible to the consumer from here on: whatever the
+        # producer still does to it afterwards may come too late)
+        if self.sched.controlled():
+            self.sched.step('q.appended')
 
     def appendleft(self, x):
         self.d.appendleft(x)
